@@ -246,16 +246,23 @@ def rule_align(ctx):
             if "weights" in c:
                 res.instance(inst + " weights")
                 bad = None
+                unknown_w = False
                 for b in branches(c["weights"]):
                     wf, wb, wops = chain(b)
                     if wf in ("empty", "foreign"):
                         continue
-                    if wf != "weights":
+                    if wf == "?":
+                        # where the weights come from was not traced (a helper that hands back both parts, an Option with a
+                        # fallback): nothing was learnt, which is not evidence of a misalignment
+                        unknown_w = True
+                    elif wf != "weights":
                         bad = "weights come from `%s`" % wf
                     elif rowops(wops) != rowops(rops):
                         bad = "records are selected with %s but weights with %s" % (rowops(rops), rowops(wops) or "nothing (all input weights)")
                 if bad:
                     res.violate("%s : weights" % inst, "%s: the output's weights are not the weights of its samples" % bad, loc)
+                elif unknown_w:
+                    res.undecided("%s : weights-provenance" % inst, "the origin of the output's weights was not traced (fail closed)", loc)
                 else:
                     res.ok()
             # names
